@@ -63,8 +63,10 @@ def note(rng, chord=False):
 
 UPPER_CORE = ["TR(1)", "TR(2)", "TR(3)", "Track(5)", "TRACK(0)", "CH(1)", "CH(2)", "CH(10)", "Channel(16)", "@1;", "@5;", "@(25)", "@40;",
               "Tempo(120)", "TEMPO=90;", "Tempo(500)", "TimeSignature(3,4)", "TimeSignature(6,8)", "KeyShift(2)", "TrackKey(-1)",
-              "KF+(fc)", "KF-(b)", "KeyFlag=(0,0,0,0,0,0,0)", "TrackSync;", "TIME(2:1:0)", "TIME(96)", "MeasureShift(1)", "vAdd(5)", "qAdd(3);"]
-UPPER_OTHER = ["y7,100;", "y10,20;", "M(64)", "V(100)", "P(32)", "EP(90)", "REV(40)", "PB(100)", "p(64)", "BR(12)", "ResetGM;", "ResetGM()",
+              "KF+(fc)", "KF-(b)", "KeyFlag=(0,0,0,0,0,0,0)", "TrackSync;", "TIME(2:1:0)", "TIME(96)", "MeasureShift(1)", "vAdd(5)", "qAdd(3);",
+              # an expression-valued argument closed by a LINE BREAK (the property's third way of closing it)
+              "@2\n", "@7\n", "TEMPO=100\n", "TR=2\n", "KeyShift=1\n", "CH=3\n"]
+UPPER_OTHER = ["y7,100;", "y10,20;", "y7,90\n", "TEMPO=80\n", "M(64)", "V(100)", "P(32)", "EP(90)", "REV(40)", "PB(100)", "p(64)", "BR(12)", "ResetGM;", "ResetGM()",
                "INT A=3;", "A=A+1;", "PRINT(A)", "PRINT(7)", "Slur(1)"]
 
 
